@@ -322,6 +322,9 @@ fn run_pty_once(case: &NetCliCase, slow: u32) -> CaseResult {
     let stop2 = stop.clone();
     let seen: Arc<Mutex<Vec<(u8, Vec<u8>)>>> = Default::default();
     let seen2 = seen.clone();
+    // when the device finished writing a held-back reply: (exchange, instant)
+    let written: Arc<Mutex<Vec<(usize, std::time::Instant)>>> = Default::default();
+    let written2 = written.clone();
     let device = std::thread::spawn(move || {
         let mut acc: Vec<u8> = Vec::new();
         let mut k = 0usize;
@@ -361,9 +364,11 @@ fn run_pty_once(case: &NetCliCase, slow: u32) -> CaseResult {
                 };
                 let out = rtu_frame(f.addr, &pdu);
                 if matches!(ex.answer, Answer::NearDeadline(_)) {
-                    // timeout 450 ms x slow; the whole reply is there 150 ms x slow before that
-                    std::thread::sleep(Duration::from_millis(300 * slow as u64));
+                    // timeout 450 ms x slow; the whole reply is there 100 ms before that (not
+                    // scaled: the window that matters is the library's inter-character delay)
+                    std::thread::sleep(Duration::from_millis(450 * slow as u64 - 100));
                     let _ = pty.write(&out);
+                    written2.lock().unwrap().push((k - 1, std::time::Instant::now()));
                     continue;
                 }
                 let mut cuts: Vec<(usize, u8)> = ex.cuts.iter().map(|(c, p)| ((*c as usize) % out.len(), *p)).collect();
@@ -405,6 +410,7 @@ fn run_pty_once(case: &NetCliCase, slow: u32) -> CaseResult {
         let long_timeout = Duration::from_millis(3000 * slow as u64);
         let mut verdict = None;
         let mut pieces = 0;
+        let mut harness_late = false;
         for (i, ex) in case.exchanges.iter().enumerate() {
             let valid = match ex.req.to_valid() {
                 Some(v) => v,
@@ -417,10 +423,24 @@ fn run_pty_once(case: &NetCliCase, slow: u32) -> CaseResult {
                 Answer::NearDeadline(_) => Duration::from_millis(450 * slow as u64),
                 _ => long_timeout,
             };
+            let submitted = std::time::Instant::now();
             let mut res = do_request(&channel, unit, timeout, &ex.req).await;
             if i == 0 && matches!(res, Res::NoConnection) {
                 tokio::time::sleep(Duration::from_millis(100 * slow as u64)).await;
                 res = do_request(&channel, unit, timeout, &ex.req).await;
+            }
+            if matches!(ex.answer, Answer::NearDeadline(_)) && res == Res::ResponseTimeout {
+                // only a reply that verifiably was on the line 40 ms before the deadline counts
+                // (measured from the submission, which is before the transmission)
+                let at = written.lock().unwrap().iter().find(|w| w.0 == i).map(|w| w.1);
+                let in_time = match at {
+                    Some(at) => at.duration_since(submitted) + Duration::from_millis(40) < timeout,
+                    None => false,
+                };
+                if !in_time {
+                    harness_late = true;
+                    break;
+                }
             }
             let want = match &ex.answer {
                 Answer::Genuine(seed) | Answer::NearDeadline(seed) => {
@@ -456,15 +476,18 @@ fn run_pty_once(case: &NetCliCase, slow: u32) -> CaseResult {
         }
         let _ = channel.shutdown().await;
         let _ = tokio::time::timeout(Duration::from_secs(3), join).await;
-        Ok::<_, String>((verdict, pieces))
+        Ok::<_, String>((verdict, pieces, harness_late))
     });
     stop.store(true, std::sync::atomic::Ordering::SeqCst);
     let _ = device.join();
-    let (verdict, pieces) = result?;
+    let (verdict, pieces, harness_late) = result?;
     if let Some(v) = verdict {
         return Err(v);
     }
     let mut ok = CaseOk::new();
+    if harness_late {
+        ok.label("flaky:held_back_reply_written_too_late");
+    }
     if pieces >= 2 {
         ok.label("replies_in_pieces>=2");
     }
